@@ -17,6 +17,9 @@ components as a plain tuple `key`, its timeline position `order` and its calenda
                  is called with int k and float(k) for a fixed k alphabet: results - and everything one more public call
                  computes from them - must be equal, hash-equal, interchangeable as set/dict keys, identical in all public
                  observations and in their internal numeric representation (also demanded of all equal alphabet pairs).
+  clones         every alphabet value through pickle round trip, copy.copy, copy.deepcopy (in-process) and through pickle into a
+                 CHILD interpreter with a different heap layout and back (both directions): a clone must be equal to, hash like,
+                 be interchangeable as set/dict key with, and show the same observations as the value rebuilt from its components.
 """
 from __future__ import annotations
 
